@@ -354,8 +354,48 @@ pub fn call_ld_bytes(e: &mut Emu, a: u8, carry: bool, ix: u16, de: u16, sp: u16,
     run_until_pc(e, ret, max_frames)
 }
 
+thread_local! {
+    /// extra PC breakpoints a debugging host keeps set while `run_until_pc` runs (stops there are resumed)
+    pub static EXTRA_BREAKPOINTS: std::cell::RefCell<Vec<u16>> = std::cell::RefCell::new(vec![]);
+}
+
 /// Runs (FrameCount(1) calls) until a breakpoint at `pc` is hit; false if `max_frames` passed first.
 pub fn run_until_pc(e: &mut Emu, pc: u16, max_frames: usize) -> Result<bool, String> {
+    let extra: Vec<u16> = EXTRA_BREAKPOINTS.with(|x| x.borrow().clone());
+    if !extra.is_empty() {
+        let mut all = vec![pc];
+        all.extend_from_slice(&extra);
+        set_break_mode(e, BreakMode::Set(all));
+        e.set_speed(EmulationMode::FrameCount(1));
+        let mut frames = 0;
+        let mut stops = 0u64;
+        let r = loop {
+            match e.emulate_frames(LONG) {
+                Ok(i) => match i.stop_reason {
+                    EmulationStopReason::Breakpoint => {
+                        if e.verif_cpu().regs.get_pc() == pc {
+                            break Ok(true);
+                        }
+                        frames += e.verif_passed_frames();
+                        stops += 1;
+                        if frames >= max_frames || stops > 2_000_000 {
+                            break Ok(false);
+                        }
+                    }
+                    EmulationStopReason::Completed => {
+                        frames += 1;
+                        if frames >= max_frames {
+                            break Ok(false);
+                        }
+                    }
+                    EmulationStopReason::Timeout => break Err("unexpected timeout".to_string()),
+                },
+                Err(x) => break Err(format!("emulate_frames: {:?}", x)),
+            }
+        };
+        set_break_mode(e, BreakMode::Never);
+        return r;
+    }
     set_break_mode(e, BreakMode::Set(vec![pc]));
     e.set_speed(EmulationMode::FrameCount(1));
     let mut frames = 0;
